@@ -140,10 +140,11 @@ Definition p_space : P space :=
   p_bind p_nat (fun n => p_bind p_nat (fun k => p_bind (p_tab p_nat) (fun l2 => p_bind (p_tab p_z) (fun mu =>
   p_bind (p_list p_bool) (fun su => p_ret (space_of_arrays n k l2 mu su)))))).
 
-Record ccase := mkccase { cc_space : space; cc_colour : list Z; cc_sorted : list nat; cc_indexptr : list nat }.
+Record ccase := mkccase { cc_space : space; cc_colour : list Z; cc_sorted : list nat; cc_indexptr : list nat;
+                          cc_arange : bool (* the space claims the arange layout (barycentric, dual, BC, localised, DP) *) }.
 Definition p_ccase : P ccase :=
   p_bind p_space (fun s => p_bind (p_list p_z) (fun col => p_bind (p_list p_nat) (fun srt =>
-  p_bind (p_list p_nat) (fun ip => p_ret (mkccase s col srt ip))))).
+  p_bind (p_list p_nat) (fun ip => p_bind p_bool (fun ar => p_ret (mkccase s col srt ip ar)))))).
 
 (* boolean version of "equal colour => disjoint rows" evaluated on the model's own colour map *)
 Definition properb (s : space) (cm : nat -> Z) : bool :=
@@ -151,10 +152,16 @@ Definition properb (s : space) (cm : nat -> Z) : bool :=
                                       negb (existsb (fun d => memb d (l2g_row s f)) (l2g_row s e)))
                             (support_elements s)) (support_elements s).
 
-(* 8 colour map 9 sorted indices 10 indexptr 13 alias closure fails 14 model colouring improper 12 undecodable *)
+(* 8 colour map 9 sorted indices 10 indexptr 13 alias closure fails 14 model colouring improper 12 undecodable
+   16 arrays are not arange_space (sp_n) (sp_k) support, although the space is of a kind built that way *)
 Definition ccase_diff (c : ccase) : list nat :=
   let s := cc_space c in
   (if alias_closedb s then [] else [13]) ++
+  (if cc_arange c
+   then let a := arange_space (sp_n s) (sp_k s) (fun e => Nat.ltb e (sp_n s) && supp s e) in
+        if list_eqb (list_eqb Nat.eqb) (l2g_tab s) (l2g_tab a) && list_eqb (list_eqb Z.eqb) (mult_tab s) (mult_tab a)
+        then [] else [16]
+   else []) ++
   match colour_map s with
   | None => [8]
   | Some cm =>
